@@ -133,6 +133,30 @@ static std::string do_op(Token token, const top& o) {
         out << " nvraw=[";
         for (auto& e : nv) out << " " << hx(reinterpret_cast<std::uintptr_t>(e.second)) << ":" << hx(rawv(e.first));
         out << " ]";
+    } else if (o.kind == "iscan") {
+        // a cursor opened and driven to its end (one iscan_next per step of the caller)
+        std::string st = unhex(a[0]), ls, rs;
+        std::string_view lk = keyview(a[1], ls), rk = keyview(a[3], rs);
+        bool rtl = a[6] == "1";
+        std::size_t ncb = 0;
+        auto cb = [&ncb](node_version64*, node_version64_body) {
+            ++ncb;
+            return false;
+        };
+        iscan_context* ctx = nullptr;
+        void* val = nullptr;
+        status rc = iscan_open(st, lk, ep(a[2]), rk, ep(a[4]), rtl, false, ctx, val, cb);
+        status first = rc;
+        std::ostringstream body;
+        std::size_t n = 0;
+        while (rc == status::OK && n < 10000) {
+            body << " " << tohex(ctx->full_key()) << ":" << (val == nullptr ? "NULLPTR" : "?");
+            ++n;
+            rc = iscan_next(ctx, val, cb);
+        }
+        if (ctx != nullptr) iscan_close(ctx);
+        status shown = (first == status::OK || first == status::OK_SCAN_END) ? status::OK : first;
+        out << shown << " n=" << n << " t=[" << body.str() << " ] nvn=" << ncb << " end=" << rc;
     } else {
         out << "?";
     }
